@@ -301,7 +301,11 @@ def _worker(args):
         _quiet_worker()
         mod = load_prop(modname)
         col = Collector(mod)
-        mod.run_job(job, seed, col)
+        if job.get('__corpus__'):
+            for _, case in corpus_cases(mod.ID):
+                col(case)
+        else:
+            mod.run_job(job, seed, col)
         return ('ok', job, col.result())
     except BaseException:
         return ('error', job, traceback.format_exc())
@@ -548,20 +552,19 @@ def run_property(pid, tier, seed, replay=None):
     nontrivial = set()
     samples = []
 
-    # 1. regression corpus + known-finding reproducers, in the parent (seconds)
+    # 1. regression corpus + known-finding reproducers: the first job of the pool. Nothing of graphtage runs in the parent
+    #    before the workers are forked: the first tqdm object creates a process-shared lock, and children forked after that
+    #    would serialise on it (a 10x slowdown measured on C05).
     corpus = corpus_cases(mod.ID)
     _quiet_worker()
-    corpus_col = Collector(mod)
-    for _, case in corpus:
-        corpus_col(case)
-    results = [corpus_col.result()]
+    results = []
 
     # 2. generated / enumerated shards, in worker processes
     jobs = mod.jobs(tier)
-    args = [(pid, job, derive_seed(seed, pid, i)) for i, job in enumerate(jobs)]
-    if jobs:
+    args = [(pid, {'__corpus__': True}, seed)] + [(pid, job, derive_seed(seed, pid, i)) for i, job in enumerate(jobs)]
+    if args:
         ctx = multiprocessing.get_context('fork')
-        with ctx.Pool(min(NPROC, len(jobs))) as pool:
+        with ctx.Pool(min(NPROC, len(args))) as pool:
             for status, job, res in pool.imap(_worker, args, chunksize=1):
                 if status != 'ok':
                     sys.stdout.write(f"HARNESS-ERROR property={pid} job={job}\n{res}\n")
